@@ -242,6 +242,25 @@ def check_content_injective(ctx: Check, tree: Tree, hook_fn) -> None:
                               f"{kf.qual}: `return {unparse(v)[:70]}` - a hashable attribute is replaced by a string derived from it",
                               "two distinct classes / functions with the same module and qualified name (redefinition in a session, closures of one factory, lambdas) give equal, equally hashed expressions although evaluate() differs")
                 continue
+            if isinstance(v, ast.Tuple):
+                # structural key: a tuple of components of the attribute.  A mapping-valued component
+                # must enter with its VALUES (items()); iterating / sorting the mapping keeps the keys only
+                probs = []
+                for e in v.elts:
+                    for sub in ast.walk(e):
+                        if isinstance(sub, ast.Call) and unparse(sub.func) in {"sorted", "tuple", "list", "set", "frozenset"} and sub.args:
+                            a0 = sub.args[0]
+                            if isinstance(a0, ast.Attribute) and a0.attr in {"keywords", "kwargs", "__dict__"} and isinstance(a0.value, ast.Name) and a0.value.id == param:
+                                probs.append(f"`{unparse(sub)}` keeps only the keys of `{unparse(a0)}`")
+                        if isinstance(sub, ast.Call) and isinstance(sub.func, ast.Attribute) and sub.func.attr == "keys" and unparse(sub.func.value).startswith(param + "."):
+                            probs.append(f"`{unparse(sub)}` keeps only the keys")
+                if probs:
+                    ctx.violation("R-INJECTIVE", f"{kf.qual}::lossy-structural-key", tree.loc(ret),
+                                  f"{kf.qual}: the structural key `{unparse(v)[:70]}` drops part of the attribute: " + "; ".join(probs),
+                                  "two attributes that differ only in the dropped part (e.g. partial(f, flag=False) vs partial(f, flag=True)) give equal, equally hashed expressions with different doit()")
+                else:
+                    ctx.advisory("R-INJECTIVE", tree.loc(ret), f"{kf.qual}: structural key `{unparse(v)[:70]}` (components not judged further)")
+                continue
             raise AnalysisError(f"{kf.qual}: return `{unparse(v)[:60]}` of unknown shape")
         if not n_ret:
             raise AnalysisError(f"{kf.qual}: no return")
